@@ -435,6 +435,33 @@ pub fn gen_macro_run(seed: u64, fixtures: &[crate::procsim::CorpusDoc]) -> Macro
             o.replaces.push((n, rng.pick(&["my_types::Custom", "::std::string::String", "crate::Thing"]).to_string(), impls));
         }
     }
+    // a second patch/replace entry whose key differs only in spelling from an
+    // existing key (lower-camel instead of Pascal case): on its own it names no
+    // type and is silently ignored (documented), so it must not influence the result
+    let respell = |n: &str| -> Option<String> {
+        let mut c = n.chars();
+        let first = c.next()?;
+        let v: String = first.to_lowercase().chain(c).collect();
+        if v != n && syn::parse_str::<syn::Ident>(&v).is_ok() {
+            Some(v)
+        } else {
+            None
+        }
+    };
+    if let Some((n, _, _)) = o.patches.first().cloned() {
+        if rng.chance(1, 3) {
+            if let Some(v) = respell(&n) {
+                o.patches.push((v, Some(format!("{n}Respelled")), vec![]));
+            }
+        }
+    }
+    if let Some((n, _, _)) = o.replaces.first().cloned() {
+        if rng.chance(1, 3) {
+            if let Some(v) = respell(&n) {
+                o.replaces.push((v, "my_types::Respelled".to_string(), vec![]));
+            }
+        }
+    }
     if rng.chance(1, 4) {
         let mut schema = BTreeMap::new();
         match rng.below(3) {
